@@ -1,6 +1,7 @@
 package interp
 
 import (
+	"sync/atomic"
 	"fmt"
 	"go/token"
 	"go/types"
@@ -36,6 +37,8 @@ type Engine struct {
 	SolverTimeoutMs  int
 	BranchTimeoutMs  int
 	SecondSolverArgv []string
+	SelfTest         bool            // sample clean paths for native replay
+	okPaths          int64
 	InitPkgs         map[string]bool // packages whose init runs normally
 	LenientPkgs      map[string]bool // packages whose var initialisers run leniently
 	VrtPath          string          // import path of the overlaid runtime package
@@ -219,6 +222,15 @@ func (w *Worker) RunPath(fn *ssa.Function, decisions []Decision) (res *PathResul
 					res.Outcome, res.Detail = "infeasible", "path condition infeasible (assumption)"
 					res.AssertsOK, res.AssertsSeen = map[string]int{}, map[string]int{}
 					res.Trivial, res.Findings = 0, nil
+				}
+			}
+			// translator validation: a sample of clean paths is replayed natively (models of their path conditions)
+			if res.Outcome == "ok" && len(res.Findings) == 0 && w.eng.SelfTest && !w.sess.solver.Dead() {
+				n := atomic.AddInt64(&w.eng.okPaths, 1)
+				if n&(n-1) == 0 { // 1st, 2nd, 4th, 8th ... clean path
+					if m, sres := r.model(); sres == smt.Sat {
+						res.OkModel = m
+					}
 				}
 			}
 		case pathAbort:
@@ -530,6 +542,7 @@ type Summary struct {
 	AssertsOK     map[string]int
 	AssertsSeen   map[string]int
 	Findings      []Finding
+	OkModels      []map[string]string // models of a sample of clean paths (translator validation)
 	FindingCounts map[string]int // per obligation / panic site: how many paths reached it failing
 	Unknown       []string
 	Instrs        int64
@@ -558,6 +571,7 @@ func (e *Engine) Explore(fn *ssa.Function, workers []*Worker, opts ExploreOpts) 
 			w.sess.paths = 1 << 30
 		}
 	}
+	atomic.StoreInt64(&e.okPaths, 0)
 	sum := &Summary{Harness: fn.Name(), Outcomes: map[string]int{}, AssertsOK: map[string]int{}, AssertsSeen: map[string]int{},
 		Unsupported: map[string]int{}, InternalAsm: map[string]int{}, PanicMsgs: map[string]int{}}
 	t0 := time.Now()
@@ -615,6 +629,9 @@ func (e *Engine) Explore(fn *ssa.Function, workers []*Worker, opts ExploreOpts) 
 				}
 				for _, a := range res.InternalAsms {
 					sum.InternalAsm[a]++
+				}
+				if res.OkModel != nil {
+					sum.OkModels = append(sum.OkModels, res.OkModel)
 				}
 				sum.Instrs += res.Instrs
 				sum.SolverS += res.SolverS
